@@ -2359,6 +2359,15 @@ typename SPxSimplifier<R>::Result SPxMainSM<R>::removeRowSingleton(SPxLPBase<R>&
       stricterLo = true;
    }
 
+   // the bounds implied by the row may contradict the bounds of the column; no later reduction is guaranteed to look
+   // at this column again
+   if(GTrel(lp.lower(j), lp.upper(j), feastol()))
+   {
+      SPxOut::debug(this, "IMAISM82 row singleton yields infeasible bounds on x{} -> lower={} upper={}\n", j,
+                    lp.lower(j), lp.upper(j));
+      return this->INFEASIBLE;
+   }
+
    std::shared_ptr<PostStep> ptr(new RowSingletonPS(lp, i, j, stricterLo, stricterUp,
                                  lp.lower(j),
                                  lp.upper(j), oldLo, oldUp, this->_tolerances));
@@ -2591,6 +2600,14 @@ typename SPxSimplifier<R>::Result SPxMainSM<R>::aggregateVars(SPxLPBase<R>& lp,
    {
       lp.changeUpper(k, new_up_k);
       this->m_chgBnds++;
+   }
+
+   // the bounds x_k inherits from x_j may contradict its own bounds: then the equation cannot be satisfied
+   if(GTrel(lp.lower(k), lp.upper(k), feastol()))
+   {
+      SPxOut::debug(this, "IMAISM81 aggregation yields infeasible bounds on x{} -> lower={} upper={}\n", k,
+                    lp.lower(k), lp.upper(k));
+      return this->INFEASIBLE;
    }
 
    std::shared_ptr<PostStep> ptr(new AggregationPS(lp, i, j, rhs, oldupper_k, oldlower_k,
